@@ -300,9 +300,27 @@ def fc_truth(draw, keys):
     return {key: draw(st.booleans()) for key in keys}
 
 
+HINT_TEXTS = [
+    "Hinweis {key}",
+    "Hinweis {key}",
+    "[{key}] Nur anzugeben, wenn mindestens 50 % der Energiemenge betroffen sind",
+    "{key}: %s %d %(name)s 100%",
+    "{key} {{0}} {{}} {{x!r}}",
+    "{key} 'einfach' \"doppelt\" \\ back",
+    "{key} zwei\nZeilen\tTab",
+    "{key} äöüß € ∧∨⊻ [1] U [2]",
+]
+
+
 def hints_for(keys):
     """hint texts that embed their key"""
     return {key: f"Hinweis {key}" for key in keys}
+
+
+@st.composite
+def hint_texts(draw, keys):
+    """hint texts that embed their key and contain characters that matter to %-/str.format-/f-string handling"""
+    return {key: draw(st.sampled_from(HINT_TEXTS)).replace("{key}", key) for key in keys}
 
 
 @st.composite
